@@ -204,6 +204,69 @@ PROPS["C09"] = {
     "explanation": "searchsorted contract => window characterisation; stand-in for grouping",
 }
 
+PROPS["C02"] = {
+    "modules": ["contracts.ops_smoothers", "contracts.c14"],
+    "contracts": ["hdc/algo/ops/ws2dgu.py::ws2dgu", "hdc/algo/ops/ws2dpgu.py::ws2dpgu"],
+    "standin": True,
+    "level": "other",
+    "trusted": ["z3 5.1 / cvc5 1.0.3", "see C03 for the two fixed-lambda contracts"],
+    "not_proved": ["placeholder non-interference is a relational (two-run) property: the lockstep self-composition in model U described in DESIGN.md is not built; it is decided by the bounded stand-in (all eight variants x placeholder encodings)",
+                   "V-curve / GCV variants: no functional contract, bounded only"],
+    "assumptions": ["model R for the two contracts (0 * placeholder = 0 holds in R, so NaN/inf placeholders are visible only to the stand-in)"],
+    "level_text": "partly deductive: for ws2dgu / ws2dpgu the discharged contracts (C03) state the result as a function of the validity weights VW and the products VW[i]*y[i] only (missing cells enter with weight 0) and the pass-through for fewer than 2 valid cells; the placeholder-independence itself, the NaN/inf encodings and the six selecting variants are decided by a bounded stand-in that compares every placeholder encoding of the same series (labelled bounded)",
+    "level_note": "mixed: functional contracts for the fixed-lambda kernels; relational clause and remaining variants bounded only",
+    "technique": "contract-based deductive verification (functional postconditions over validity weights) + bounded run-time check of the relational contract on placeholder pairs",
+    "explanation": "the relational (two-run) obligations of DESIGN.md §4 C02 are replaced by a bounded comparison of placeholder encodings; functional contracts of ws2dgu/ws2dpgu are discharged",
+}
+
+PROPS["C04"] = {
+    "modules": ["contracts.c14"],
+    "contracts": ["hdc/algo/ops/ws2doptv.py::ws2doptv@idx", "hdc/algo/ops/ws2doptvp.py::ws2doptvp@idx", "hdc/algo/ops/ws2doptvp.py::_ws2doptvp@idx",
+                  "hdc/algo/ops/ws2doptvplc.py::ws2doptvplc@idx", "hdc/algo/ops/ws2doptvplc.py::ws2doptvplc@idx_low", "hdc/algo/ops/ws2doptvplc.py::ws2doptvplc@idx_sym",
+                  "hdc/algo/ops/ws2doptvplc.py::ws2doptvplc_tyx@idx"],
+    "standin": True,
+    "level": "other",
+    "trusted": ["the core solver (C01) is used by the stand-in's independent V-curve recomputation"],
+    "not_proved": ["optimality of the selected grid cell, midpoint form of lopt, band == fixed-lambda smoother at lopt, grid choice from lc, sgrid = log10(lopt) float32: bounded stand-in only (independent numpy recomputation of the V-curve)",
+                   "the deductive part covers index safety, every output cell (band and lopt) written, and the argmin cursor staying on the grid (0 <= k < nl-1) for all inputs"],
+    "assumptions": [],
+    "level_text": "mixed, mostly bounded: deductively (for all inputs) the V-curve kernels stay inside their arrays, write every band cell and lopt on every path and keep the argmin cursor on the grid; the optimality / midpoint / self-consistency / grid-choice clauses are decided by a bounded stand-in that recomputes the V-curve independently and compares the band with the fixed-lambda smoother at the reported lambda (labelled bounded)",
+    "level_note": "index/written obligations proved; value clauses bounded only; Numba faithful (C13)",
+    "technique": "contract-based deductive verification of index/written/cursor obligations + bounded run-time evaluation of the selection contract against an independent V-curve recomputation",
+    "explanation": "functional contracts of the selection loops (spec functions for F, P, V over uninterpreted log/sqrt/pow) are not built; see DESIGN.md",
+}
+
+PROPS["C05"] = {
+    "modules": ["contracts.c14"],
+    "contracts": ["hdc/algo/ops/ws2dwcv.py::ws2dwcv@idx", "hdc/algo/ops/ws2dwcv.py::ws2dwcv@idx_robust", "hdc/algo/ops/ws2dwcvp.py::ws2dwcvp@idx",
+                  "hdc/algo/ops/ws2dwcvp.py::ws2dwcvp@idx_robust", "hdc/algo/ops/ws2dwcvp.py::_ws2dwcvp@idx", "hdc/algo/ops/ws2dwcvp.py::_ws2dwcvp@idx_robust"],
+    "standin": True,
+    "level": "other",
+    "trusted": ["the core solver (C01) is used by the stand-in's independent GCV recomputation", "np.median as an uninterpreted order statistic in the index contracts"],
+    "not_proved": ["GCV optimality, lopt drawn from 10**srange, band == fixed-lambda smoother at lopt, robust-mode non-degeneracy and placeholder independence: bounded stand-in only",
+                   "the deductive part covers index safety (incl. the robust_gcv table indices), shape agreement of every vectorised expression and every output cell written, for both robust settings"],
+    "assumptions": [],
+    "level_text": "mixed, mostly bounded: deductively (for all inputs) the vectorised GCV kernels keep every subscript, boolean-mask selection, list/table index and element-wise shape in bounds and write band and lopt on every path, with and without robust weighting; the optimality, self-consistency and robust non-degeneracy clauses are decided by a bounded stand-in (independent GCV recomputation; constant / exactly linear / flat-with-spikes / two-level series; placeholder pairs)",
+    "level_note": "index/shape/written obligations proved; value clauses bounded only; Numba faithful (C13)",
+    "technique": "contract-based deductive verification of index/shape/written obligations + bounded run-time evaluation of the selection contract against an independent GCV recomputation",
+    "explanation": "functional contracts for the vectorised GCV loop (lists, medians) are not built; see DESIGN.md",
+}
+
+PROPS["C06"] = {
+    "modules": ["contracts.ops_ws2d", "contracts.ops_smoothers"],
+    "contracts": ["hdc/algo/ops/ws2d.py::ws2d"],
+    "standin": True,
+    "level": "other",
+    "trusted": ["ws2d returns a solution of (W + lmda D'D) z = W y for the weights it is given (C01, discharged here again)"],
+    "not_proved": ["the three invariances follow from C01 only together with uniqueness of the solution (s.p.d. system) and per-row arithmetic on D'D (annihilation of affine sequences, symmetry of the band); these lemmas are not built, so the clauses are decided by the bounded stand-in on all eight variants",
+                   "asymmetric variants start IRLS from the zero curve, which is not shift-invariant: no contract implies the offset clause for them; stand-in only"],
+    "assumptions": [],
+    "level_text": "bounded for the property's own clauses (linear series reproduced incl. gaps, integer offsets, time reversal; tie rules implemented by recomputing the unrounded curve and the selection criterion) on all eight smoother variants; the deductive ingredient is C01's contract for the core solver (normal equations for every weight pattern), re-discharged by this check",
+    "level_note": "C01's solver contract proved; invariance clauses bounded only",
+    "technique": "contract-based deductive verification of the core solver + bounded run-time evaluation of the invariance clauses on pairs of runs",
+    "explanation": "uniqueness-based lemmas (linear / offset / reversal) not built; see DESIGN.md",
+}
+
 ALL = ["C%02d" % i for i in range(1, 21)]
 NOT_APPLICABLE = {
     "C13": "statement about Numba's type inference/lowering and the ctypes binding of SciPy kernels (the translator), not about functions of /repo: no contract on hdc-algo source can establish or refute it; it is the stated assumption of every proof here",
